@@ -169,6 +169,15 @@ impl<Effect, Event> Command<Effect, Event> {
             }
 
             while let Ok(task_id) = self.ready_queue.try_recv() {
+                // One of the tasks which just ran may have aborted this command. Nothing
+                // which belongs to an aborted command should run any more, even if it was
+                // already woken in this pass
+                if self.was_aborted() {
+                    self.tasks.clear();
+
+                    return;
+                }
+
                 match self.run_task(task_id) {
                     TaskState::Missing => {
                         // The task has been evicted because it completed.  This can happen when
